@@ -4,6 +4,9 @@ oracle only), generators.
 
 Case line:   sy|<obj>,<obj>,...|<cmd>;<cmd>;...
   <obj>  = kx:ky:kl:km      trait kinds of the scalar traits x, y and of the items of the list traits l, m
+         | name=kind:name=*kind:...   any class shape: `*` marks a List trait (kind = kind of its items).  Names
+           are opaque to the model; the same name may be a List trait in one class, a scalar trait in another,
+           absent in a third; names may contain `_items` (`menu_items`)
   kinds  = int (Int) | str (Str) | cint (CInt) | rng (Range(-3,3)) | mod7 | inc   (the last two are TraitTypes
            defined here: an idempotent, non-injective coercion and a non-idempotent one)
   <cmd>  = as <o> <name> <val>                 setattr(obj_o, name, val)   val = 5 | s5 (the str '5') | [1,2]
@@ -13,8 +16,9 @@ Case line:   sy|<obj>,<obj>,...|<cmd>;<cmd>;...
          | ki <o>                              del obj_o; gc.collect()
 Output: one record per command, joined by ' ; ':
   <res> r<n> <obj0> <obj1> ...      res = ok | ok=<ret> | err:<Exc>;  n = exceptions swallowed by the notifier
-  <obj> = dead | x=<v>,y=<v>,l=[..],m=[..],c=<cx><cy><cl><cm><cli><cmi>,k=<locked names '+'-joined or '-'>
-          (c = handler calls during this command on x, y, l, m, l_items, m_items; one digit each, 9 = nine or more)
+  <obj> = dead | <name>=<v>,...,c=<digits>,k=<locked names '+'-joined or '-'>     (declared traits, in order)
+          (c = handler calls during this command: on every trait in order, then on the items event of every List
+           trait in order; one digit each, 9 = nine or more)
 """
 from . import seqlib as S
 
@@ -66,15 +70,48 @@ def make_trait(kind):
     return _trait_types()[kind]()
 
 
+def parse_spec(s):
+    """-> tuple of (name, is_list, kind)."""
+    parts = [t.strip() for t in s.strip().split(":")]
+    if any("=" in t for t in parts):
+        out = []
+        for t in parts:
+            n, k = t.split("=")
+            out.append((n, k.startswith("*"), k.lstrip("*")))
+        return tuple(out)
+    return tuple((n, n in LISTS, k) for n, k in zip(NAMES, parts))
+
+
+def names(spec):
+    return tuple(d[0] for d in spec)
+
+
+def lists(spec):
+    return tuple(d[0] for d in spec if d[1])
+
+
+def decl(spec, name):
+    for d in spec:
+        if d[0] == name:
+            return d
+    raise KeyError(name)
+
+
+def is_list(spec, name):
+    return any(d[0] == name and d[1] for d in spec)
+
+
+def kind_of(spec, name):
+    return decl(spec, name)[2]
+
+
 def make_class(spec):
-    """spec = (kx, ky, kl, km)."""
+    """spec = tuple of (name, is_list, kind)."""
     c = _classes.get(spec)
     if c is None:
         from traits.api import HasTraits, List
-        kx, ky, kl, km = spec
-        c = type("O_" + "_".join(spec), (HasTraits,), {
-            "x": make_trait(kx), "y": make_trait(ky),
-            "l": List(make_trait(kl)), "m": List(make_trait(km))})
+        c = type("O_" + "_".join("%s%s%s" % (n, "L" if il else "S", k) for n, il, k in spec), (HasTraits,),
+                 {n: (List(make_trait(k)) if il else make_trait(k)) for n, il, k in spec})
         _classes[spec] = c
     return c
 
@@ -114,8 +151,8 @@ def pure_validate(kind, v):
 
 def pure_validate_attr(spec, name, v):
     """Validated value for attribute `name` of an object of class spec."""
-    kind = spec[NAMES.index(name)]
-    if name in LISTS:
+    _, il, kind = decl(spec, name)
+    if il:
         if type(v) is not list:
             raise Reject("list")
         return [pure_validate(kind, x) for x in v]
@@ -163,7 +200,7 @@ def parse_cmd(s):
 
 def parse_case(case):
     kind, specs, cmds = case.split("|")
-    specs = [tuple(o.strip().split(":")) for o in specs.split(",")]
+    specs = [parse_spec(o) for o in specs.split(",")]
     cmds = [parse_cmd(c) for c in cmds.split(";") if c.strip()]
     return kind.lstrip("#"), specs, cmds
 
@@ -361,6 +398,130 @@ def random_history(rng, maxcmds=12, gc_heavy=False, shape=None):
                             spread(src, n)
                         cmds.append("li %d %s %d %s %d" % (src, n, fresh, n2, 1 if rng.random() < 0.8 else 0))
     return "sy|%s|%s" % (",".join(":".join(s) for s in specs), ";".join(cmds))
+
+
+# Class shapes with List traits under different names and partial overlaps of names: a name that is a List
+# trait in one class is a scalar trait in another and absent in a third; names containing `_items`, next to a
+# scalar trait named like their stem.  (A class cannot have List traits `menu` and `menu_items` both: the items
+# event of the first is the trait `menu_items`.)
+SHAPES = (
+    "x=K:y=K:l=*K:menu_items=*K",
+    "x=K:m=*K:n=K:menu_items=*K",
+    "y=K:n=*K:m=K:menu=K",
+    "x=K:l=*K:n=*K",
+    "x=K:menu_items=*K:menu=K",
+    "x=K:y=K:m=*K:l=K",
+    "x=K:menu=*K:n=*K",
+)
+
+
+def random_shape_history(rng, maxcmds=14):
+    """A hub List trait linked to List traits of two or three partners under different attribute names; removal
+    of one link among several; in-place mutations of the hub (and of the partners) before and after."""
+    k = rng.choice(["int", "int", "int", "cint", "mod7", "rng"])
+    nobj = rng.choice([3, 3, 4, 2])
+    specs_s = [rng.choice(SHAPES).replace("K", k) for _ in range(nobj)]
+    if rng.random() < 0.15:
+        specs_s[rng.randrange(nobj)] = rng.choice(SHAPES).replace("K", rng.choice(KINDS))
+    specs = [parse_spec(t) for t in specs_s]
+    alive = list(range(nobj))
+    cmds, links, shadow = [], [], {}
+
+    def spread(o, n):
+        seen, todo = {(o, n)}, [(o, n)]
+        while todo:
+            u = todo.pop()
+            for (a, na, b, nb) in links:
+                for x, y in (((a, na), (b, nb)), ((b, nb), (a, na))):
+                    if x == u and y not in seen and y[0] in alive:
+                        seen.add(y)
+                        todo.append(y)
+        for y in seen:
+            shadow[y] = list(shadow.get((o, n), []))
+
+    def pick(o, lst):
+        c = [n for n, il, _ in specs[o] if il == lst]
+        return rng.choice(c) if c else None
+
+    hub = 0
+    hn = pick(hub, True)
+    # the hub trait gets its partners
+    others = [o for o in alive if o != hub]
+    rng.shuffle(others)
+    for o in others[:rng.choice([2, 2, 3, 1])]:
+        n2 = pick(o, True)
+        if hn is None or n2 is None:
+            continue
+        links.append((hub, hn, o, n2))
+        if rng.random() < 0.5:
+            cmds.append("li %d %s %d %s %d" % (hub, hn, o, n2, rng.choice([1, 1, 0])))
+        else:
+            cmds.append("li %d %s %d %s 1" % (o, n2, hub, hn))
+    if hn is not None:
+        v = rand_listval(rng, kind_of(specs[hub], hn), True, lo=2, hi=6)
+        cmds.append("as %d %s %s" % (hub, hn, v))
+        shadow[(hub, hn)] = list(S.parse_list(v))
+        spread(hub, hn)
+    ncmd = rng.randint(max(4, len(cmds) + 2), maxcmds)
+    while len(cmds) < ncmd:
+        r = rng.random()
+        if r < 0.45:
+            # in-place mutation, mostly of the hub
+            o = hub if (hn is not None and rng.random() < 0.65 and hub in alive) else rng.choice(alive)
+            n = hn if o == hub and hn is not None and rng.random() < 0.85 else pick(o, True)
+            if n is None:
+                continue
+            cur = len(shadow.setdefault((o, n), []))
+            op = S.random_op(rng, min(cur, 12))
+            if op in ("im 2", "im 3") and cur > 6:
+                op = "im 1"
+            cmds.append("mu %d %s %s" % (o, n, op))
+            try:
+                S.apply_op(shadow[(o, n)], S.parse_op(op))
+                spread(o, n)
+            except Exception:
+                pass
+        elif r < 0.62 and links:
+            # one link among several goes (mostly exactly as it was made)
+            a, na, b, nb = rng.choice(links)
+            if a in alive and b in alive:
+                if rng.random() < 0.3:
+                    a, na, b, nb = b, nb, a, na
+                cmds.append("un %d %s %d %s %d" % (a, na, b, nb, 1 if rng.random() < 0.8 else 0))
+                if rng.random() < 0.8:
+                    links[:] = [l for l in links if l not in ((a, na, b, nb), (b, nb, a, na))]
+        elif r < 0.74:
+            # a further link: lists under whatever names, scalars, now and then across kinds
+            o = rng.choice(alive)
+            o2 = rng.choice([p for p in alive if p != o] or [o])
+            lst = rng.random() < 0.6
+            n, n2 = pick(o, lst), pick(o2, lst if rng.random() < 0.93 else not lst)
+            if n is None or n2 is None:
+                continue
+            links.append((o, n, o2, n2))
+            if is_list(specs[o], n) and is_list(specs[o2], n2):
+                spread(o, n)
+            cmds.append("li %d %s %d %s %d" % (o, n, o2, n2, rng.choice([1, 1, 0])))
+        elif r < 0.86:
+            o = rng.choice(alive)
+            lst = rng.random() < 0.5
+            n = pick(o, lst)
+            if n is None:
+                continue
+            kind = kind_of(specs[o], n)
+            if lst:
+                v = rand_listval(rng, kind, rng.random() < 0.9)
+                if v.startswith("["):
+                    shadow[(o, n)] = list(S.parse_list(v))
+                    spread(o, n)
+            else:
+                v = rand_scalar(rng, kind, rng.random() < 0.85)
+            cmds.append("as %d %s %s" % (o, n, v))
+        elif r < 0.92 and len(alive) > 2:
+            o = rng.choice([a for a in alive if a != hub])
+            alive.remove(o)
+            cmds.append("ki %d" % o)
+    return "sy|%s|%s" % (",".join(specs_s), ";".join(cmds))
 
 
 def with_gc_everywhere(case):
